@@ -127,6 +127,12 @@ func TestVerifC14(t *testing.T) {
 			var other [32]byte
 			other[0] = byte(i)
 			_ = ls.S.Invoke(peer.NewCallContext(context.Background(), other), "Echo", vAppMsg("t", nil, ""), &message.Response{})
+			// calls made under a context which has ended already: to the connected peer, to an absent one, from the client
+			ended, ecancel := context.WithCancel(context.Background())
+			ecancel()
+			_ = ls.S.Invoke(peer.NewCallContext(ended, ckey.Static()), "Echo", vAppMsg("t", nil, ""), &message.Response{})
+			_ = ls.S.Invoke(peer.NewCallContext(ended, other), "Echo", vAppMsg("t", nil, ""), &message.Response{})
+			_ = cc.Invoke(ended, "Echo", vAppMsg("t", nil, ""), &message.Response{})
 		}
 	}
 	reconnect(2)
@@ -149,7 +155,7 @@ func TestVerifC14(t *testing.T) {
 		cc.mu.RLock()
 		pendC := len(cc.methodCalls)
 		cc.mu.RUnlock()
-		c := vCase{Class: "census", Sig: fmt.Sprint("census/", k), Info: map[string]interface{}{"reconnects": k, "failed_calls": 3 * k, "goroutines_base": vCensusStr(base), "goroutines_now": vCensusStr(now),
+		c := vCase{Class: "census", Sig: fmt.Sprint("census/", k), Info: map[string]interface{}{"reconnects": k, "failed_calls": 6 * k, "goroutines_base": vCensusStr(base), "goroutines_now": vCensusStr(now),
 			"pending_server": pendS, "pending_client": pendC, "outcome": fmt.Sprintf("goroutines %d -> %d", vCensusTotal(base), vCensusTotal(now))}}
 		if vCensusTotal(now) > vCensusTotal(base)+2 {
 			c.Fail = "goroutines-grow-with-history"
